@@ -75,6 +75,7 @@ type c16World struct {
 	ushape map[string]string // ungrouped metric name -> label names
 	gate   *c16Gate
 	fresh  int // counter for metric names never used before in this case
+	run    *c16Runner // the text path's scratch directory and bash hook (c16text.go)
 }
 
 // c16Gate is the prometheus.Registerer handed to the storage (ungrouped vecs) and to the grouped vault:
@@ -668,6 +669,35 @@ func runC16(r *Run) {
 			{"h1", []c16Op{{Name: "gn", Group: "ga", Action: "set", Value: ip(6), Labels: map[string]string{"b": "1"}}}},
 		}, []int{0, 1})
 	})
+	r.One(6, func(c *Case, _ *Rng) {
+		c.Desc = "corpus text: a real bash hook writes its metrics file; then a file whose LAST operation is cut off (after two complete ones that would replace group ga): nothing applied, the execution fails"
+		c.Nontrivial = true
+		w := newC16World(c)
+		a := c16Op{Name: "gg1", Group: "ga", Action: "set", Value: ip(6), Labels: map[string]string{"x": "1"}}
+		b := c16Op{Name: "gg1", Group: "ga", Action: "set", Value: ip(8), Labels: map[string]string{"x": "2"}}
+		u := c16Op{Name: "ug1", Set: ip(3)}
+		w.sendText(r, "h1", []c16Op{a, b, u}, a.jsonLine()+"\n"+b.jsonLine()+"\n"+u.jsonLine()+"\n", "run")
+		full := a.jsonLine() + "\n" + u.jsonLine() + "\n" + b.jsonLine()
+		w.sendText(r, "h1", []c16Op{a, u, b}, full[:len(full)-1], "run")
+		w.sendText(r, "h1", []c16Op{a, u, b}, full[:len(full)-9], "file")
+		w.sendText(r, "h1", []c16Op{a, u}, a.jsonLine()+u.jsonLine()+"\n{", "file")
+		w.sendText(r, "h2", []c16Op{a}, "\n "+a.jsonLine(), "file")
+	})
+	r.One(7, func(c *Case, _ *Rng) {
+		c.Desc = "corpus text: blank file, stray closer, wrong type, text between documents, an operation validation rejects, top-level null, array of operations — all after a valid first document"
+		c.Nontrivial = true
+		w := newC16World(c)
+		a := c16Op{Name: "gc1", Group: "gb", Add: ip(3)}
+		u := c16Op{Name: "uh1", Action: "observe", Value: ip(4), Buckets: true}
+		w.sendText(r, "h1", []c16Op{a, u}, "{ \"add\" : 15e-1 , \"GROUP\":\"gb\",\"name\":\"\\u0067c1\",\"labels\":null}"+u.jsonLine(), "file")
+		w.sendText(r, "h1", nil, "", "file")
+		w.sendText(r, "h1", nil, " \n\t", "run")
+		for _, tail := range []string{"}", "\n]\n", ",", " xyz", "{\"name\":5,\"set\":1}", "{\"name\":\"ug1\",\"set\":\"1\"}", "{\"name\":\"ug1\",\"action\":\"bogus\",\"value\":1}",
+			"null", "{}", "[" + u.jsonLine() + "]", "{\"name\":\"ug1\",\"set\":1,}", "{\"name\":\"ug1\",\"set\":01}", "{\"name\":\"ug1\",\"set\":1"} {
+			w.sendText(r, "h1", []c16Op{{Name: "gc1", Group: "gb", Add: ip(5)}}, "{\"name\":\"gc1\",\"group\":\"gb\",\"add\":2.5}\n"+tail, "file")
+		}
+		w.send("h1", []c16Op{{Group: "gb", Action: "expire"}})
+	})
 	// ---- known findings, replayed on every run ----
 	r.One(10, func(c *Case, _ *Rng) {
 		c.Desc = "finding: A sets m{l}; B sets m{l}; A expires -> B's series disappears (ownership by label hash)"
@@ -738,7 +768,7 @@ func runC16(r *Run) {
 		w := newC16World(c)
 		g := &c16Gen{w: w, rng: rng}
 		nb := rng.Range(1, 8)
-		valid, grouped, conc := 0, 0, 0
+		valid, grouped, conc, texts := 0, 0, 0, 0
 		for b := 0; b < nb; b++ {
 			if rng.Chance(22) {
 				// concurrent step: 2..4 hooks, each with its own group(s), send at the same time
@@ -788,6 +818,36 @@ func runC16(r *Run) {
 			}
 			hook := PickOne(rng, c16Hooks)
 			ops, invalid := g.batch(hook, c16Groups)
+			if rng.Chance(30) {
+				// text step: the batch as the text of the hook's metrics file
+				if rng.Chance(4) {
+					ops, invalid = nil, false // the hook wrote nothing / blanks only
+				}
+				damage := len(ops) > 0 && rng.Chance(35)
+				text, shape := c16Text(rng, ops, damage, c)
+				via := "file"
+				if rng.Chance(10) {
+					via = "run"
+				}
+				c.Note("text:" + shape)
+				c.Note("text-via:" + via)
+				w.sendText(r, hook, ops, text, via)
+				if c.Inconcl != "" {
+					return
+				}
+				texts++
+				if !invalid && !damage {
+					valid++
+					g.commit(hook, ops)
+				}
+				for _, o := range ops {
+					if o.Group != "" {
+						grouped++
+						break
+					}
+				}
+				continue
+			}
 			w.send(hook, ops)
 			if !invalid {
 				valid++
@@ -801,6 +861,9 @@ func runC16(r *Run) {
 			}
 		}
 		c.Note(fmt.Sprintf("batches:%d", nb))
+		if texts > 0 {
+			c.Note("case:with-text-steps")
+		}
 		c.Nontrivial = (nb >= 2 || conc >= 1) && valid >= 1 && grouped >= 1
 	})
 	if r.Thorough() {
